@@ -401,6 +401,56 @@ def run(ctx):
                     r3.ok("frame", "no write to the method's state on the no-value path (%d blocks)" % len(region))
     r3.floor(3, "two filter closures + frame rule")
 
+    # ---------------- R4 with every helper off, a key on an empty text appends the whole value
+    r4 = chk.rule("C04.R4", "with all composition helpers off, every path of the key-value processor taken from an empty text appends the complete value",
+                  "pressing a key appends exactly the string the layout assigns to it (also when that string has several code points)")
+    from . import kvp as _kvp, classes as _classes
+    from engine.analyses import PredEval as _PE, PathLimit as _PL
+    try:
+        kb4, S4, info4 = ctx.memo("kvp", lambda: _kvp.summarise(prog))
+        pe4 = _PE(prog)
+        cls4 = _classes.class_fns(prog)
+        n4 = 0
+        bad4 = None
+        for s4 in S4:
+            if not _kvp.feasible(s4, pe4, cls4) or s4.unknown:
+                continue
+            skip = False
+            for a4, v4 in s4.atoms:
+                if a4[0] == "cfg" and v4 is True:
+                    skip = True            # some helper option is on
+                if a4[0] in ("rmc_eq", "second_last_eq") and v4 is True:
+                    skip = True            # the text is not empty
+                if a4[0] in ("rmc_pred", "rmc_in") and v4 is True:
+                    skip = True
+                if a4[0] == "rmc_switch" and v4 != "otherwise":
+                    skip = True
+                if a4[0] == "buf_empty" and v4 is False:
+                    skip = True
+                if a4[0] in ("pending_some", "popped_some") and v4 is True:
+                    skip = True
+                if a4[0] == "char_some" and v4 is False:
+                    skip = True            # (an empty value is filtered out before the processor: R3)
+            if skip:
+                continue
+            n4 += 1
+            eff4 = [e for e in s4.effects if e[0] in ("push", "push_str", "pop", "pending", "recurse", "call")]
+            whole = eff4 == [("push_str", "<value>")] or eff4 == [("push", "<character>"), ("push_str", "<rest>")]
+            if not whole and bad4 is None:
+                bad4 = (s4, eff4)
+        if n4 == 0:
+            r4.undecidable("whole-value", "no path of the processor is taken with every helper off on an empty text")
+        elif bad4 is not None:
+            from . import c12 as _c12
+            r4.violation("whole-value", "with every helper off and an empty text the processor does %s on the path [%s] — a value of several code points is not appended completely "
+                         "(only its first character is)" % (_c12._fmt(bad4[1]), _c12._signature(bad4[0])[:160]),
+                         site_of(kb4, _c12._first_effect_bb(kb4, bad4[0]) or bad4[0].path[-2][0]))
+        else:
+            r4.ok("whole-value", "%d paths, each appends the complete value (as one string, or first character + rest)" % n4)
+    except _PL as e4:
+        r4.undecidable("whole-value", "cannot enumerate the processor's paths: %s" % e4)
+    r4.floor(1, "whole-value")
+
 
 def _explicit_filter(prog, helper, is_np):
     """Explicit-match form of the helpers: every path returning a value must have seen get()==Some ∧ ¬is_empty (∧ numpad);
